@@ -112,6 +112,15 @@ def drvStep (_ : Unit) (ops : List String) (impl : String) : Unit × Verdict :=
     let e : SrvEnd := match kvOf rest "end" with | "cancel" => .cancel | "both" => .both | _ => .eof
     let o := parseSrv (words impl)
     ((), { model := showSrv (srvModelLine e o), violated := (srvMonitor o).map SrvClause.text })
+  | "connecterr" :: _ =>
+    if impl == "panic" then ((), { model := "no-panic", violated := some "C05: panic in CommandTransport.Connect" }) else
+    let t := words impl
+    let o : ConnObs := { err := kvOf t "err" == "1", started := kvOf t "started" == "1", leak := kvOf t "leak" == "1" }
+    let m := connFail
+    ((), { model := s!"err={b01 m.err} started={b01 m.started} leak={b01 m.leak}",
+           violated := (connMonitor o).map fun
+             | .processLeft => "C05: CommandTransport.Connect failed but left a child process behind"
+             | .goroutineLeft => "C05: CommandTransport.Connect failed but left goroutines of the transport behind" })
   | _ => ((), { model := "bad-op", violated := none })
 
 end CmdTransport
